@@ -172,6 +172,21 @@ def r02_1(ctx):
         doc_short = (m_doc.group(1).rsplit("::", 1)[-1] + "::") if m_doc else "Document::"
         ctr = strace(sup, n, t["args"][0], extra=(doc_short,))
         chunk_fed = bool(ctr.origin and ctr.origin[0] == "call" and common.is_chunker_next(ctx.facts, fn_of(ctr.origin[2])))
+        if not chunk_fed and ctr.origin and ctr.origin[0] == "multi":
+            # `let mut next = docs.next(); while let Some(doc) = next { next = docs.next(); .. }`: every definition of
+            # the variable is the chunker's next()
+            defs_ = ctr.origin[2]
+            ob_ = sup.body_of(ctr.origin_node)
+
+            def from_next(kind_, payload_):
+                if kind_ == "call":
+                    return common.is_chunker_next(ctx.facts, fn_of(payload_))
+                if kind_ == "assign" and payload_["rv"]["k"] == "use" and is_place(payload_["rv"]["op"]):
+                    t_ = trace(ob_, payload_["rv"]["op"])
+                    return bool(t_.origin and t_.origin[0] == "call" and common.is_chunker_next(ctx.facts, fn_of(t_.origin[2])) and all(x_[0] == "use" for x_ in t_.steps))
+                return False
+
+            chunk_fed = bool(defs_) and all(from_next(kind_, payload_) for _, _, kind_, payload_ in defs_)
         whole = not chunk_fed
         if not whole:
             ctx.ob(f"site:{sup.body_of(n).name}:chunk-fed", True, sup.site(n), "parser fed by a chunker document (already re-encoded): exempt", trivial=True)
